@@ -51,6 +51,18 @@ theorem not_gated_if_partly_outside (iv : Int × Int) (ts te : Int) (h : ts < iv
     (decide (iv.1 ≤ ts) && decide (te ≤ iv.2)) = false := by
   rcases h with h | h <;> simp <;> omega
 
+/-- pairs of neighbouring (in time) listed intervals of one spacecraft -/
+def neighbours (ivs : List (Int × Int)) : List ((Int × Int) × (Int × Int)) := ivs.zip ivs.tail
+
+/-- **One interval must hold the whole pass**: for every spacecraft with a table and every two listed intervals that
+follow each other in the table without overlapping, a pass that starts in the middle of the first and ends in the
+middle of the second - both ends inside a listed interval - is NOT masked (checked on the regenerated tables). -/
+theorem spanning_two_intervals_not_gated :
+    ∀ e ∈ Generated.tsmIntervalsPod ++ Generated.tsmIntervalsKlm, ∀ p ∈ neighbours e.2.2,
+      p.1.2 < p.2.1 →
+      gate (Generated.tsmIntervalsPod ++ Generated.tsmIntervalsKlm) e.1 ((p.1.1 + p.1.2) / 2) ((p.2.1 + p.2.2) / 2) = false := by
+  decide +kernel
+
 /-- **Pixel criterion**: a pixel is selected iff both 3x3-neighbourhood variances (NaN-ignoring,
 edges included through NaN padding) exceed 4, i.e. both standard deviations exceed 2 -/
 theorem pixel_criterion (ch1 ch2 ch4 ch5 : Img) (i j : Nat) :
